@@ -93,6 +93,19 @@ def index_case(draw, mode):
                 shp = tuple(1 if draw(st.booleans()) else s for s in arr_shape)
             cnt = math.prod(shp)
             vals = draw(st.lists(st.integers(-n, n - 1), min_size=cnt, max_size=cnt))
+            # structured values (what a fast path would look for): a contiguous range, a range with one element
+            # repeated and one skipped (same first, last and length as a range), sorted values, a constant
+            pattern_ = draw(st.sampled_from(['iid', 'iid', 'iid', 'range', 'near_range', 'near_range', 'sorted', 'constant']))
+            if pattern_ in ('range', 'near_range') and 1 <= cnt <= n:
+                a_ = draw(st.integers(0, n - cnt))
+                vals = list(range(a_, a_ + cnt))
+                if pattern_ == 'near_range' and cnt >= 3:
+                    j_ = draw(st.integers(1, cnt - 2))
+                    vals[j_] = vals[j_ + draw(st.sampled_from([-1, 1]))]
+            elif pattern_ == 'sorted':
+                vals = sorted(v % n for v in vals)
+            elif pattern_ == 'constant':
+                vals = [vals[0]] * cnt
             entries[d] = {'a': np.asarray(vals, dtype=int).reshape(shp).tolist()}
             # integer dtype of the index array: signed or (when no entry is negative) unsigned
             pool = ['int32', 'int32', 'int8', 'int16'] + (['int64'] if mode == 'x64' else [])
